@@ -242,6 +242,11 @@ def plan_paths(ctx, g, budget, ext):
     total = len(uncovered)
     all_edges = sorted(uncovered)
     ctx.rng.shuffle(all_edges)
+    # a quarter of the budget goes first to "read of an object that cannot be serialised" (each such
+    # behaviour is then extended by further reads: asked again), the rest is a random cover
+    first = [e for e in all_edges if e[1] == "FailedRead"][:max(1, budget // 4)]
+    fs = set(first)
+    all_edges = first + [e for e in all_edges if e not in fs]
     paths = []
     for e in all_edges:
         if e not in uncovered:
@@ -287,7 +292,7 @@ class Bg:
         return self.out
 
 
-NEG_CONTROLS = ("ObjFile_stale.cfg", "ObjFile_chunked.cfg", "ObjFile_sha1cache.cfg")
+NEG_CONTROLS = ("ObjFile_stale.cfg", "ObjFile_chunked.cfg", "ObjFile_sha1cache.cfg", "ObjFile_dirtyfirst.cfg")
 
 
 def objfile_runs(ctx):
@@ -298,7 +303,8 @@ def objfile_runs(ctx):
     # state-by-state comparison while that defect is present in the code)
     keeps = os.path.join(d, "blob_keeps_sha.cfg")
     tlc.write_cfg(keeps, spec="Spec", constants={"NF": 1, "Vals": "{0, 1, 2}", "IsBlob": "TRUE", "SetterMarksDirty": "TRUE",
-                                                "ChunkedResetsSha": "FALSE", "ExplicitSha1Recomputes": "TRUE"})
+                                                "ChunkedResetsSha": "FALSE", "ExplicitSha1Recomputes": "TRUE",
+                                                "DirtyUntilSerialized": "TRUE"})
     graphs = {"generic": "ObjFile_mc.cfg", "blob": "ObjFile_blob.cfg", "blob_keeps_sha": keeps}
     bgs = {n: Bg(lambda n=n, c=c: tlc.run("ObjFile.tla", c, workers=ctx.pick(2, 4), dump_dot=os.path.join(d, n + ".dot"), timeout=600,
                                         coverage=not ctx.quick)) for n, c in graphs.items()}
@@ -326,7 +332,7 @@ def phase_life(ctx, objfile):
     for cfg in NEG_CONTROLS:
         r = runs[cfg]
         ctx.add_tlc(f"{cfg} (negative control: defect model must violate IdIsHash/SerCurrent)", r, require_ok=False)
-        if not ({"IdIsHash", "SerCurrent"} & set(r.violated)):
+        if not ({"IdIsHash", "SerCurrent", "NoStaleAfterFailure"} & set(r.violated)):
             raise MachineryError(f"negative control {cfg} found no violation\n{r.output[-1500:]}")
     pf = os.path.join(d, "paths.json")
     with open(pf, "w") as f:
@@ -377,7 +383,8 @@ def phase_life(ctx, objfile):
 
 # ----------------------------------------------------------------------------- phase 3: TLC judges recorded executions
 OPNAME = {"Set": "set", "AsRaw": "raw", "ReadId": "id", "ReadIdF": "idF", "Copy": "copy", "Check": "check",
-          "SetRaw": "setraw", "SetChunked": "chunked", "Reload": "reload"}
+          "SetRaw": "setraw", "SetChunked": "chunked", "Reload": "reload", "Spoil": "spoil", "Unspoil": "unspoil",
+          "FailedRead": "fail"}
 
 
 def _val(v):
@@ -394,7 +401,8 @@ def life_trace(tid, t):
         op, a = e["op"], e["args"]
         rec = {"op": OPNAME[op], "f": 0, "x": 0, "v": [], "ret": _val(e["ret"]), "rfmt": e.get("rfmt", 0),
                "fields": _val(e["st"]["fields"]), "dirty": e["st"]["dirty"], "text": _val(e["st"]["text"]),
-               "shak": e["st"]["sha"][0], "shav": _val(e["st"]["sha"][1]), "shaf": e["st"]["sha"][2]}
+               "shak": e["st"]["sha"][0], "shav": _val(e["st"]["sha"][1]), "shaf": e["st"]["sha"][2],
+               "err": bool(e.get("err", False)), "bad": bool(e["st"].get("bad", False))}
         if op == "Set":
             rec["f"], rec["x"] = a
         elif op == "SetRaw":
